@@ -118,7 +118,8 @@ Line(e) ==
     [] e.e = "release_done" ->
          IF e.released # relFlip THEN Fail("release_decision_differs") ELSE Skip
     [] e.e = "loop_exit" ->
-         IF ~(proc = "up" /\ e.gen \in loops /\ ~tw.on /\ (e.gen = gen => (eng.ended # "none" \/ ~active)))
+         IF ~(proc = "up" /\ e.gen \in loops /\ (e.gen = gen => (eng.ended # "none" \/ ~active))
+              /\ (tw.on => (e.gen = gen /\ ~active)))
          THEN Fail("loop_exit_not_enabled") ELSE LoopExit(e.gen) /\ Ok /\ UNCHANGED relFlip
     [] e.e = "send_begin" ->
          IF ~(proc = "up" /\ LockFree /\ row.exists /\ row.status = "running") THEN Fail("send_not_enabled")
